@@ -52,9 +52,6 @@ func (cfg *Config) VerifyConfig(schema base.LogSchema) error {
 
 func (tf *parseTimeTransform) Transform(record *base.LogRecord) base.FilterResult {
 	value := tf.keyLocator.Get(record.Fields)
-	if len(value) == 0 {
-		return base.PASS
-	}
 	tm, err := parseRFC3339Timestamp(value, tf.timezoneCache)
 	if err != nil {
 		tf.errorCounter(record.RawLength)
